@@ -126,7 +126,11 @@ def native_lib(primary, support=(), flags=(), extra_c='', name=None, expose_stat
             if expose_static:
                 txt = re.sub(r'^define internal ', 'define ', txt, flags=re.M)
             txt = redirect_calls(txt, redirect)
-            if hook_atomics:
+            if hook_atomics == 'points':
+                # stall-injection replay: a hook runs before every atomic access of the translation unit (it may delay the calling thread)
+                txt, nh = re.subn(r'^(\s+)((?:%[\w.]+ = )?(?:load atomic|atomicrmw|cmpxchg)\b|store atomic\b)', r'\1call void @vf_atomic_point()\n\1\2', txt, flags=re.M)
+                if nh and 'declare void @vf_atomic_point()' not in txt and 'define void @vf_atomic_point()' not in txt and not re.search(r'define [^\n]*@vf_atomic_point\(', txt): txt += '\ndeclare void @vf_atomic_point()\n'
+            elif hook_atomics:
                 # controlled-scheduler replay: every 64-bit atomic fetch-add goes through a hook that may run another thread's code first
                 txt, nh = re.subn(r'(%[\w.]+) = atomicrmw add i64\* (%[\w.]+), i64 ([^ ]+) \w+(, align \d+)?', r'\1 = call i64 @vf_atomic_add_hook(i64* \2, i64 \3)', txt)
                 if nh: txt += '\ndeclare i64 @vf_atomic_add_hook(i64*, i64)\n'
